@@ -28,7 +28,6 @@ EXPECTED_UNDECIDED = {
     "C18-d3": {"C18": "build_measurement is split over a NamedTuple with a property and two helpers; the lumi unit scenario (C18.R2) and the whole-file cycle (C18.R5) are function-level interpretations that do not iterate a generator of modelled records"},
     "C02-d5": {"C02": "the unbatched constraint classes select row 0 of the access field at construction; the C02.R3 scenario hands the constructor a scalar stand-in where the new code iterates"},
     "C10-d5": {"C02": "same change as C02-d5 proposed for C10: `make_pdf` reads attributes (`_gather_indices`, `_rate_factors`) that only the new `_precompute` sets; the C02.R3 make_pdf scenario builds the object's attributes by hand"},
-    "C11-d5": {"C01": "the tiled mask is hoisted into `__init__` as a new attribute; C01.R1 evaluates `apply` on hand-made attributes of the pinned names"},
     "C13-d5": {"C05": "the jax objective stitches through module-level helpers of tensor/common.py operating on default_backend index tensors; the C05.R4 function-level scenario models `_TensorViewer`, not its extracted helpers"},
 }
 
